@@ -106,7 +106,7 @@ fn ty_index(f: &Field, j: usize) -> usize {
 
 fn elem_type(f: &Field, j: usize) -> String {
     let j = ty_index(f, j);
-    let w = f.width();
+    let w = f.value_width();
     match &f.kind {
         Kind::Bool => "bool".into(),
         Kind::Arb => {
@@ -121,6 +121,7 @@ fn elem_type(f: &Field, j: usize) -> String {
         Kind::EnumExh => format!("{}E{j}", if f.qualified { "self::" } else { "" }),
         Kind::EnumOpt { .. } => format!("Option<{}E{j}>", if f.qualified { "self::" } else { "" }),
         Kind::Nested => format!("{}N{j}", if f.qualified { "self::" } else { "" }),
+        Kind::User => format!("{}U{j}", if f.qualified { "self::" } else { "" }),
     }
 }
 
@@ -158,13 +159,18 @@ fn enum_decl(out: &mut String, j: usize, w: u32, discs: &[u128], exhaustive: boo
     let _ = writeln!(out, "#[bitenum(u{w}{ex})]\n#[derive(Debug, PartialEq, Eq)]\n#[repr(u{s})]\npub enum E{j} {{");
     for (k, d) in discs.iter().enumerate() {
         if conditional && k == 0 {
-            let _ = writeln!(out, "    #[cfg(all())]");
+            // two cfg-alternatives for one discriminant, the inactive one declared first
+            let _ = writeln!(out, "    #[cfg(any())]\n    Alt{k} = {d},\n    #[cfg(all())]");
         }
         let _ = match (style / 4) % 3 {
             1 => writeln!(out, "    V{k} = {d:#x},"),
             2 if *d < (1 << 16) => writeln!(out, "    V{k} = {d:#b},"),
             _ => writeln!(out, "    V{k} = {d},"),
         };
+    }
+    if conditional && discs.len() >= 2 {
+        // ... and one pair with the inactive alternative declared last
+        let _ = writeln!(out, "    #[cfg(any())]\n    Alt1 = {},", discs[1]);
     }
     if conditional {
         // a variant that is configured out: it must not exist in the conversions
@@ -219,6 +225,21 @@ pub fn layout_module(l: &Layout) -> String {
                 let _ = writeln!(
                     o,
                     "#[bitfield(u{w})]\n#[derive(Debug, PartialEq, Eq)]\npub struct N{j} {{\n    #[bit(0, rw)]\n    b0: bool,\n{all}}}"
+                );
+            }
+            Kind::User => {
+                // what new_with_raw_value() takes is as wide as the field; what raw_value()
+                // returns is as wide as the declared type width (the same unless this is a probe)
+                let fw = f.width();
+                let st = storage_bits(w.max(fw));
+                let take = if is_native(fw) { format!("v as u{st}") } else { format!("v.value() as u{st}") };
+                let give = if is_native(w) { format!("self.0 as u{w}") } else { format!("arbitrary_int::u{w}::new(self.0 as u{})", storage_bits(w)) };
+                let _ = writeln!(
+                    o,
+                    "#[derive(Copy, Clone, Debug, PartialEq, Eq)]\npub struct U{j}(u{st});\nimpl U{j} {{\n    pub const fn new_with_raw_value(v: {}) -> Self {{ Self({take}) }}\n    pub const fn raw_value(self) -> {} {{ {give} }}\n    /// harness-only constructor: every bit pattern raw_value() can return\n    pub fn from_bits(v: u128) -> Self {{ Self((v & {:#x}u128) as u{st}) }}\n}}",
+                    if is_native(fw) { format!("u{fw}") } else { format!("arbitrary_int::u{fw}") },
+                    if is_native(w) { format!("u{w}") } else { format!("arbitrary_int::u{w}") },
+                    mask(w)
                 );
             }
             _ => {}
@@ -279,6 +300,7 @@ pub fn layout_module(l: &Layout) -> String {
             Kind::EnumExh => format!("e{t}_in(v & {:#x}u128)", mask(w)),
             Kind::EnumOpt { .. } => format!("e{t}_in(v)"),
             Kind::Nested => format!("N{t}::new_with_raw_value({})", uint_in(w, "v")),
+            Kind::User => format!("U{t}::from_bits(v)"),
         };
         let _ = writeln!(o, "#[inline(never)]\npub fn in_{j}(v: u128) -> {st} {{ {body_in} }}");
         let gt = getter_type(f, j);
@@ -288,7 +310,7 @@ pub fn layout_module(l: &Layout) -> String {
             Kind::Signed => format!("(x as u{w} as u128, TAG_PLAIN)"),
             Kind::EnumExh => format!("(e{t}_out(x), TAG_PLAIN)"),
             Kind::EnumOpt { .. } => format!("match x {{ Ok(e) => (e{t}_out(e), TAG_OK), Err(r) => (r as u128, TAG_ERR) }}"),
-            Kind::Nested => format!("({}, TAG_PLAIN)", uint_out(w, "x.raw_value()")),
+            Kind::Nested | Kind::User => format!("({}, TAG_PLAIN)", uint_out(w, "x.raw_value()")),
         };
         let _ = writeln!(o, "#[inline(never)]\npub fn out_{j}(x: {gt}) -> (u128, u8) {{ {body_out} }}");
     }
